@@ -121,6 +121,8 @@ type pathState struct {
 	sigRecs    []*sigRecord
 	sigCounter int
 	sigIDs     map[string]int
+	sealRecs   []*sealRecord
+	randCounter int
 	hstates    map[*value]*hstate
 	lastModel  map[string]*big.Int
 	known      map[*Term]*Term
